@@ -1,18 +1,37 @@
 /*@UNIT
 {
-  "property": "C13",
-  "unit": "div_2d",
-  "function": "pstm_div_2d",
-  "source": "crypto/math/pstm.c",
-  "keep_bodies": ["pstm_copy", "pstm_rshd", "pstm_zero", "pstm_clamp"],
-  "replace": ["pstm_grow"],
-  "mode": "proof",
-  "why_proof": "the loop of pstm_div_2d and the loops of the inlined pstm_copy, pstm_rshd, pstm_zero, pstm_clamp are closed by in-place loop contracts (hook H1): every digit count up to PSTM_MAX_SIZE, every 16-bit signed bit count; pstm_grow is replaced by its contract (enforced in unit grow)",
-  "loop_contracts": true,
-  "object_bits": 8,
-  "cases": [{"name": "distinct", "defs": []}, {"name": "alias_ca", "defs": ["ALIAS_CA=1"]}],
-  "native_replay": false,
-  "timeout": 600
+ "property": "C13",
+ "unit": "div_2d",
+ "function": "pstm_div_2d",
+ "source": "crypto/math/pstm.c",
+ "keep_bodies": [
+  "pstm_copy",
+  "pstm_rshd",
+  "pstm_zero",
+  "pstm_clamp"
+ ],
+ "replace": [
+  "pstm_grow"
+ ],
+ "mode": "proof",
+ "why_proof": "the loop of pstm_div_2d and the loops of the inlined pstm_copy, pstm_rshd, pstm_zero, pstm_clamp are closed by in-place loop contracts (hook H1): every digit count up to PSTM_MAX_SIZE, every 16-bit signed bit count; pstm_grow is replaced by its contract (enforced in unit grow)",
+ "loop_contracts": true,
+ "object_bits": 8,
+ "cases": [
+  {
+   "name": "distinct",
+   "defs": []
+  },
+  {
+   "name": "alias_ca",
+   "defs": [
+    "ALIAS_CA=1"
+   ]
+  }
+ ],
+ "native_replay": false,
+ "timeout": 600,
+ "tier": "thorough"
 }
 @*/
 /* C13.div_2d  c = a / 2^b with d == NULL (every call site in the library passes NULL; the remainder
